@@ -3,6 +3,7 @@ import NibabelModel.Lemmas.C14
 import NibabelModel.Lemmas.C14_Progress
 import NibabelModel.Lemmas.C14_Topo
 import NibabelModel.Generated.C14Src
+import NibabelModel.Generated.C14Lock
 import NibabelModel.Props.C06
 /-! Props/C14 — the property theorems for C14 "concurrent reads through a shared file handle never mix up
     data" (statements + short proofs; the work is in Lemmas/C14.lean).
@@ -972,4 +973,37 @@ theorem gen_getUnscaled_eq (l : Nat) (pre : List Action) (m r : Bool) (off n : N
 example : Gen.readSegments (some 3) [(0, 2), (4, 2)] = lockedSegs 3 [(0, 2), (4, 2)] ∧
     Gen.readSegments (some 3) [(5, 1)] = [.acquire 3, .seek 5, .read 1, .release 3] := by decide
 
+
+/-- SOURCE TIE (lexical lock discipline, regenerated from the working tree on every run).  The record
+    extracted from the AST of `fileslice.py` / `arrayproxy.py` is EXACTLY the one the model and the theorems
+    of this file assume:
+    * `read_segments`: every `fileobj.seek/read` sits inside a `with lock:` block, each block is
+      `seek` FOLLOWED by its `read` (single- and multi-segment branch), nothing outside a block;
+    * the only other function of `fileslice.py` touching a file object is `_simple_fileslice` (unlocked; it is
+      not called anywhere in the two modules — a benchmark helper); `arrayproxy.py` itself calls no file method;
+    * `fileslice` hands its `lock` to `read_segments`; `_get_unscaled` calls `array_from_file` inside
+      `with …, self._lock` and passes `lock=self._lock` to `fileslice` — and these are the only calls of the
+      reading functions;
+    * `copy()` builds a proxy over `self.file_like` whose lock is the source's iff `_has_fh()`; `reshape()`
+      builds one over `self.file_like` with a fresh lock; `__init__`/`__setstate__` install a fresh lock; no other
+      method constructs a proxy or assigns a lock.
+    (The PROGRAM-level tie — that these blocks mean `lockedSegs`/`lockedWhole`/`copyLock` — is
+    `gen_readSegments_eq`, `gen_getUnscaled_eq`, `gen_lock_rules_eq`.) -/
+theorem lock_discipline_record :
+    GenLock.filesliceSites =
+      [("read_segments", "fileobj", "seek", true), ("read_segments", "fileobj", "read", true),
+       ("read_segments", "fileobj", "seek", true), ("read_segments", "bytes", "write", true),
+       ("read_segments", "fileobj", "read", true), ("read_segments", "bytes", "tell", false),
+       ("_simple_fileslice", "fileobj", "seek", false), ("_simple_fileslice", "fileobj", "read", false)] ∧
+    GenLock.arrayproxySites = [] ∧
+    GenLock.readSegmentsBlocks = [["seek", "read"], ["seek", "read"]] ∧
+    GenLock.readSegmentsOutside = [] ∧
+    GenLock.filesliceCalls = [("fileslice", "read_segments", false, "lock")] ∧
+    GenLock.arrayproxyCalls =
+      [("ArrayProxy._get_unscaled", "array_from_file", true, "-"),
+       ("ArrayProxy._get_unscaled", "fileslice", false, "self._lock")] ∧
+    GenLock.lockAssigners =
+      [("__init__", "-", "fresh"), ("copy", "self.file_like", "(if hasFh then src else fresh)"),
+       ("__setstate__", "-", "fresh"), ("reshape", "self.file_like", "fresh")] := by
+  decide
 end Nb.C14
